@@ -266,6 +266,8 @@ ADAPT = r"^core::iter::traits::iterator::Iterator::(map|filter|filter_map|enumer
 def m_adapt(I, st, info, args, depth):
     k = info["tdef"].split("::")[-1]
     it = as_iter(I, st, args[0])
+    if it is None and k in ("cloned", "copied", "fuse") and isinstance(deref(I, st, args[0]), Seq):
+        return ret(st, deref(I, st, args[0]))     # an opaque element sequence traversed by value: the same elements
     if it is None:
         return None
     if k in ("by_ref", "fuse"):
@@ -289,6 +291,15 @@ def m_adapt(I, st, info, args, depth):
 def m_adapt2(I, st, info, args, depth):
     k = info["tdef"].split("::")[-1]
     it = as_iter(I, st, args[0])
+    if it is None and k == "chain":
+        # two opaque element sequences (slice.iter() is modelled by the slice itself): the chained traversal is their concatenation
+        a, b = deref(I, st, args[0]), deref(I, st, args[1])
+        okv = lambda x: (isinstance(x, Seq) and not x.attrs.get("top")) or (isinstance(x, Sym) and not x.attrs.get("adt"))
+        if okv(a) and okv(b) and (isinstance(a, Seq) or isinstance(b, Seq)):
+            c1, l1 = MD.seq_chunks(I, st, a)
+            c2, l2 = MD.seq_chunks(I, st, b)
+            return ret(st, Seq("chain", l1.add(l2), None, c1 + c2, kind="vec"))
+        return None
     if it is None or it.fields["ops"].elems:
         return None
     items = it.fields["items"].elems[it.fields["pos"].const:]
@@ -457,6 +468,24 @@ def m_terminal(I, st, info, args, depth):
                 res.append((s, "return", Seq("collected@%d" % info["ln"], Aff(len(acc)), list(acc), kind="vec")))
         return res
     return None
+
+
+@imodel(r"^alloc::slice::<impl \[T\]>::concat$|^alloc::slice::Concat::concat$")
+def m_concat(I, st, info, args, depth):
+    """[a, b, ..].concat(): the pieces one after the other"""
+    x = deref(I, st, args[0])
+    if not (isinstance(x, Seq) and x.elems is not None):
+        return None
+    chunks, ln = [], Aff(0)
+    for e in x.elems:
+        ev = deref(I, st, e)
+        if not isinstance(ev, (Seq, StrV)):
+            return None
+        c, l = MD.seq_chunks(I, st, ev)
+        chunks += c
+        ln = ln.add(l)
+    kind = "str" if all(isinstance(deref(I, st, e), StrV) or getattr(deref(I, st, e), "kind", "") == "str" for e in x.elems) and x.elems else "vec"
+    return ret(st, Seq("concat", ln, None, chunks, kind=kind))
 
 
 # ------------------------------------------------------------------ concrete maps
